@@ -588,7 +588,11 @@ fn compile_collateral(tx: &tir::Tx) -> Result<Vec<TransactionInput>, Error> {
         .iter()
         .filter_map(|collateral| collateral.utxos.as_option())
         .flat_map(coercion::expr_into_utxo_refs)
-        .flatten()
+        .flat_map(|mut refs| {
+            // same as for the inputs: the utxos come out of a hash set
+            refs.sort_by(|a, b| (&a.txid, a.index).cmp(&(&b.txid, b.index)));
+            refs
+        })
         .map(|x| {
             Ok(primitives::TransactionInput {
                 transaction_id: coercion::bytes_into_hash::<32>(x.txid.as_slice())?,
